@@ -13,12 +13,12 @@ SPEC = {
                   "reloads, for EVERY rule semantics (rule matching and the address checks are arbitrary functions): the verdict "
                   "sequence satisfies the per-flow specification (a packet passes iff a rule allows it, or an earlier packet of the "
                   "same tuple passed and the flow has not been idle past its protocol's timeout: honoured while now <= Expires, not "
-                  "while now > Expires); off the exact instant now = Expires the verdicts of a flow are a function of that flow's "
-                  "own packets, hence independent of any churn on other tuples; from any reachable state a flow idle for less than "
+                  "while now > Expires); the verdicts of a flow are a function of that flow's "
+                  "own packets, hence independent of any churn on other tuples, on all histories; from any reachable state a flow idle for at most "
                   "its timeout is honoured and one idle for more is refused whatever other traffic happened in between; a refused "
-                  "flow stays refused until a rule allows a new packet; a packet and its reply are one tuple. At the exact instant "
-                  "idle = timeout the verdict depends on whether the timer wheel evicts the entry at that instant "
-                  "(C18_boundary_churn_refuted, reproduced on the real code). TCP/UDP/default timeouts of an unconfigured firewall "
+                  "flow stays refused until a rule allows a new packet; a packet and its reply are one tuple. The exact instant "
+                  "idle = timeout is honoured, with or without churn (F24 repair: evict and the lookup use the same boundary). "
+                  "TCP/UDP/default timeouts of an unconfigured firewall "
                   "and the protocol numbers are regenerated from the code on every run and pinned to 12/3/10 min, 6/17/1. "
                   "The model is tied to firewall.go/timeout.go/outside.go by histories of allow/deny/sleep over 3-5 flows and 4 "
                   "peers with gaps just below/at/above each timeout, with and without churn, nil conntrack cache, real "
@@ -35,7 +35,7 @@ SPEC = {
     "corr": ["corr/Conntrack_corr.v"],
     "comps": [{"comp": "conntrack", "n_quick": 200, "n_thorough": 6000}],
     "trusted": ["model/Conntrack.v is a hand-written mirror of Firewall.Drop, inConns (incl. the F4 idle-expiry check), addConn, "
-                "evict and of newPacket's orientation; model/Wheel.v (C33) is the timer wheel; tied by the correspondence",
+                "evict (incl. the F24 boundary) and of newPacket's orientation; model/Wheel.v (C33) is the timer wheel; tied by the correspondence",
                 "gen/Consts_Conntrack.v is printed by the harness from the constants compiled in from /repo and from a firewall "
                 "built by NewFirewallFromConfig from an empty configuration",
                 "allowed / addr_ok are tabulated per case by the real FirewallTable.match and the real address lookups"],
